@@ -19,6 +19,7 @@ type PassSpec struct {
 	Walk       string   `json:"walk"`        // callee name that runs the unit body in the driver ("Walk")
 	Drivers    []string `json:"drivers"`     // restrict the driver functions considered (default: every caller of the constructor)
 	EpochRoots []string `json:"epoch_roots"` // entry points from which stale-epoch reads are searched (default: every root of the program)
+	Pure       bool     `json:"pure"`        // function pass whose result must be a function of its arguments: it reads no mutable package-level variable, not even one that others set
 	// Accepted: globals whose cross-unit value is provably irrelevant for a reason outside rules 1-5; each with the
 	// obligation that keeps the reason true (checked, not assumed).
 	Accepted []AcceptedState `json:"accepted"`
